@@ -201,7 +201,7 @@ class MarkerPlan(Plan):
             n = heavy.get(t, 1)
             for k in range(n):
                 jobs.append((f"{t}[{k}/{n}]", "marker_function", {"name": t, "timeout_ms": tmo, "vc_slice": (k, n) if n > 1 else None}))
-        if self.pid in ("C02", "C15"):
+        if self.pid in ("C02", "C15", "C12"):      # (C12: only()/exclude() end in of(), whose proof uses the operator law of the atom layer)
             jobs += [(t, "atom_function", {"name": t, "timeout_ms": tmo}) for t in ATOM_TARGETS]
         if self.pid == "C02":
             jobs.append(("C02.version-atoms", "atom_versions", {"timeout_ms": tmo}))
@@ -434,7 +434,9 @@ def get_plan(pid):
 
 
 # proof-chain premises re-established inside a check (cheap ones only; C02 as a premise of C03 / C14 is too heavy and is covered by those checks' bounded parts)
-PREMISES = {"C04": ["C01"], "C17": ["C06"], "C14": ["C01"], "C08": ["C05"]}
+# (C07: the text means what the marker means [own proof part]; that the re-parsed text *evaluates* so is the parser's contract, C03, over the operator laws, C02.
+#  C14 on markers: corollaries of the C02 operator law.)
+PREMISES = {"C04": ["C01"], "C17": ["C06"], "C14": ["C01", "C02"], "C08": ["C05"], "C07": ["C02", "C03"]}
 
 
 # ---------------------------------------------------------------------------------------------------------------
@@ -445,6 +447,8 @@ def run_property(pid, tier, seed, nproc):
     with ThreadPoolExecutor(max_workers=1) as pool:       # the bounded part runs beside the proof jobs
         fut = pool.submit(common.run_rtc_many, [(s, tier, seed, arg) for s, arg in plan.rtc], nproc)
         named, functions, crashes, notes = plan.stages(tier, nproc)
+        premise_runs = [(ppid, get_plan(ppid)) for ppid in PREMISES.get(pid, [])]
+        premise_runs = [(ppid, pplan, pplan.stages(tier, nproc)) for ppid, pplan in premise_runs]      # beside the bounded part
         rtc_results = fut.result()
     findings = common.load_findings()
     violations, known, undecided = [], [], []
@@ -467,9 +471,7 @@ def run_property(pid, tier, seed, nproc):
     # premises: properties whose contracts this property's proof part uses as lemmas are re-established on this tree (their own obligations, not their
     # bounded parts); a premise that fails leaves this property undecided - it is never turned into a violation of this property
     premise_notes = []
-    for ppid in PREMISES.get(pid, []):
-        pplan = get_plan(ppid)
-        pn, _pf, pc, _ = pplan.stages(tier, nproc)
+    for ppid, pplan, (pn, _pf, pc, _) in premise_runs:
         pbase = common.load_baseline(ppid)
         plisted = [sfx for e in findings if e.get("status") == "finding" and e.get("property") == ppid for sfx in e.get("match", {}).get("obligation_suffixes", [])]
         bad = [k for k, d in pn.items() if pplan.own(k) and d["status"] != "unsat" and not any(k.endswith(x) for x in plisted)]
